@@ -4,7 +4,8 @@ exhaustive, random beyond), batches of one, and (aggregate metrics) permutations
 from __future__ import annotations
 import itertools, time
 from ..common import Rng, Report, budget
-from ..registry import SPECS, Spec, fresh_cfg, public_cfg, cat_batches, split_batch, batch_len, permute_batch
+from ..registry import SPECS, Spec, Batch, fresh_cfg, public_cfg, cat_batches, split_batch, batch_len, permute_batch, bool_label_variant, fine_variant
+import torch
 from ..engine import observe, same_obs, obs_json, fed
 
 LEVEL = "proof"
@@ -43,6 +44,24 @@ def check_one(rep: Report, rng: Rng, spec: Spec, cfg0: dict, exhaustive: bool):
     if whole is None:
         return
     whole = split_batch(spec, whole, [n_target])[0]
+    # storage / value variants of the SAME sample set (the relation is between two feedings of one set, so any valid set serves):
+    #  bool labels (a per-batch count must not inherit the label dtype), float64 data split below float32 resolution, and — for the
+    #  aggregation family, whose documented behaviour is to propagate it — one NaN among the values (every batching must then agree on NaN)
+    mode = rng.choice(["plain", "plain", "plain", "bool-labels", "f64-fine", "nan"])
+    if mode == "bool-labels":
+        v = bool_label_variant(whole)
+        if v is not None:
+            try:
+                fed(spec, cfg, [v]); whole = v; rep.count("variant:bool-labels")
+            except Exception:  # noqa: BLE001
+                rep.count("variant:bool-labels-rejected")
+    elif mode == "f64-fine":
+        whole = fine_variant(whole); rep.count("variant:f64-fine")
+    elif mode == "nan" and spec.family == "agg" and spec.name in ("Max", "Min", "Mean", "Sum") and n_target >= 2:
+        a0 = whole.args[0]
+        if isinstance(a0, torch.Tensor) and a0.is_floating_point() and a0.numel() >= 2:
+            a0 = a0.clone(); a0.reshape(-1)[rng.randrange(a0.numel())] = float("nan")
+            whole = Batch((a0, *whole.args[1:]), dict(whole.kwargs)); rep.count("variant:nan")
     base = observe(fed(spec, cfg, [whole]))
     comps = list(compositions(n_target)) if exhaustive else [[1] * n_target] + [rand_comp(rng, n_target) for _ in range(4)]
     key = (spec.name, repr(public_cfg(cfg)), repr(whole.describe()))
@@ -132,7 +151,7 @@ def translate(rep: Report):
 
 def run(rep: Report):
     rng = Rng(rep.seed * 1000003 + 12)
-    sweep(rep, rng, 4 if rep.tier == "quick" else 30, time.time() + budget(rep.tier, 60, 800))
+    sweep(rep, rng, 12 if rep.tier == "quick" else 30, time.time() + budget(rep.tier, 60, 800))
 
 
 def search(rep: Report):
